@@ -17,15 +17,18 @@ MODEL_NOTE = ("models M1 (lean/HqModel/Core: reactor, task queues, mapping after
 PARTIAL = ("the theorems are step-level (all states, all inputs of one step) or job-layer-global; the invariant over whole cluster histories "
            "is evaluated by harness monitors on every explored real trace and is not a theorem yet (DESIGN.md 6.1 stage B)")
 
-def exhaust(view, tags, clauses, qd=3, td=6):
+def exhaust(view, tags, clauses, qd=3, td=6, scenario=None):
     """bounded exhaustive exploration: EVERY sequence of enabled world actions (schedule, deliver each pending message,
     end each running task ok/failed, lose a worker, cancel, add a worker) up to depth qd / td from three small fixed
     scenarios (dependencies + max_fails; prefill backlog on two workers; multi-node), each executed on the real code"""
     drv = {"job": "hqm-job", "core": "hqm-core"}[view]
     extra = ["!panic"] + (["!bad-choice"] if view == "core" else [])
-    return {"component": view, "driver": drv, "name": view + "_exhaust", "tags": tags + extra, "clauses": clauses,
-            "quick": {"cases": 1, "shards": 16, "extra": ["--exhaust", str(qd)]} if qd else None,
-            "thorough": {"cases": 1, "shards": 16, "extra": ["--exhaust", str(td)]}}
+    # `scenario`: only that scenario (a deeper quick exploration of one state family)
+    sc = ["--scenario", str(scenario)] if scenario is not None else []
+    name = view + "_exhaust" + ("_s%d" % scenario if scenario is not None else "")
+    return {"component": view, "driver": drv, "name": name, "tags": tags + extra, "clauses": clauses,
+            "quick": {"cases": 1, "shards": 16, "extra": ["--exhaust", str(qd)] + sc} if qd else None,
+            "thorough": {"cases": 1, "shards": 16, "extra": ["--exhaust", str(td)] + sc} if td else None}
 
 def sys_link(q=20, t=200, quick=True):
     """link check of the composed model Sys (checks/sys_link.py): the job view and the core view of the same runs merged into
@@ -33,6 +36,22 @@ def sys_link(q=20, t=200, quick=True):
     return {"component": "sys", "driver": "hqm-sys", "name": "sys_link", "runner": ("sys_link", "run"), "tags": [], "clauses": ["sys."],
             "quick": {"cases": q, "shards": 12, "extra": []} if quick else None,
             "thorough": {"cases": t, "shards": 16, "extra": []}}
+
+SYSW_CLAUSES = ["sysw.", "c06.single", "c08.cancel_sent"]
+
+def sysw(tags, q=13, t=100, quick=True):
+    """link check of the composed model WITH the workers, SysW (harness/src/sysw.rs, lean/Driver/SysWMain.lean, notes/sysw_link.md):
+    one op per world action of the same Sim runs as job / core, replayed through SysW.step by hqm-sysw: SysW.OpOk on every real
+    action, stops = real panics, both queues of every worker + running / backlog / blocked sets + job and core views compared per op;
+    monitors sysw.hyp / sysw.step / sysw.fin_proto / c06.single / c08.cancel_sent. tags None = every out line"""
+    return {"component": "sysw", "driver": "hqm-sysw", "tags": tags, "clauses": SYSW_CLAUSES,
+            "quick": {"cases": q, "shards": 12, "extra": []} if quick else None,
+            "thorough": {"cases": t, "shards": 16, "extra": []}}
+
+def sysw_exhaust(tags, qd=None, td=4):
+    return {"component": "sysw", "driver": "hqm-sysw", "name": "sysw_exhaust", "tags": tags, "clauses": SYSW_CLAUSES,
+            "quick": {"cases": 1, "shards": 16, "extra": ["--exhaust", str(qd)]} if qd else None,
+            "thorough": {"cases": 1, "shards": 16, "extra": ["--exhaust", str(td)]}}
 
 SYSW_NOTE = ("sysw_* theorems: the worker model M2 is composed into the system (SysW = Sys + one M2 state per worker + two FIFO queues per "
              "worker, the actions of the harness world: deliveries, worker-local events, add / lose worker): the worker-protocol side "
@@ -42,8 +61,14 @@ SYSW_NOTE = ("sysw_* theorems: the worker model M2 is composed into the system (
              "only (fresh worker records, SubmitOk, no task id submitted twice, QueueOkD / SolMnOk before a scheduling round); "
              "sysw_c08_cancel_sent: after a cancel is answered every worker still running a task of that job the core knew has a CancelTasks "
              "naming it in its queue; sysw_c06_single_partial: a task the core knows runs on at most one worker (partial: tasks the core has "
-             "forgotten); SysW is tied to the code through its components (job, core, worker correspondences + the Sys link check); a replay "
-             "driver for SysW itself is not built")
+             "forgotten); SysW is tied to the code through its components (job, core, worker correspondences + the Sys link check) AND by the link "
+             "check of component sysw: real simulated-cluster runs replayed through SysW.step, SysW.OpOk evaluated on every real action, "
+             "both queues of every worker, the workers' running / backlog / blocked sets and both server views compared per action. Inputs "
+             "recorded from the real run there: the worker allocator's answers (inferred from the worker's reports), and four state edits the "
+             "driver applies outside SysW.step (counted per case, notes/sysw_link.md section 4): the worker clock after age_worker (M2's "
+             "remaining time is a run constant), fault injection into a backlog, the id order inside a RetractResponse (M2 lists a class "
+             "newest-first, the code oldest-first and classes in hash order) and the order of redirect messages at a worker loss (hash order "
+             "of the task map) -- for the last two some real runs are runs of SysW only up to these orders, which no theorem statement mentions")
 
 SYS_NOTE = ("sys_* theorems are about the COMPOSED model Sys = job layer M4 x core M1 (HqModel/Sys/Model.lean): every callback of the core is "
             "routed in order to the job layer, the lists on_task_error returns are checked against the rets the core consumed, client "
@@ -71,7 +96,8 @@ PROPS = {
     "C02": entry("C02", ["c02_submit_ids", "c02_auto_ids_agree", "@HqModel.Sys.sys_registry", "@HqModel.Sys.sys_coupled",
                          "@HqModel.Sys.sys_job_run", "@HqModel.Sys.sys_core_run", "@HqModel.SysW.sysw_registry", "@HqModel.SysW.sysw_sys_run"],
                  [job(["core", "live", "resp", "tasks"], ["c02."]), core(["t", "q", "flag"], ["c02."]),
-                  exhaust("core", ["t", "q", "flag"], ["c02."], qd=None), sys_link()],
+                  exhaust("core", ["t", "q", "flag"], ["c02."], qd=None), sys_link(),
+                  sysw(["ev", "resp", "core", "live", "job", "tasks", "t", "msg", "cb", "s2w", "w2s"])],
                  [SYS_NOTE, SYSW_NOTE, "progress ('eventually terminal') depends on HiGHS returning an optimal solution and on the fair drain; monitored at rest "
                   "after a fault-free drain of every generated run, not proved"]),
     "C03": entry("C03", ["c03_not_ready_with_deps", "c03_restart", "depClosed_iff", "c03_compute_only_ready", "c03_compute_only_ready_run",
@@ -106,7 +132,8 @@ PROPS = {
                          "c06_started_unsent_witness", "c06_restart", "c06_restart_emitted", "c06_restart_reuse_witness",
                          "@HqModel.SysW.sysw_c06_single_partial"],
                  [core(["msg", "t", "rd", "w"], ["c06.", "core.hyp"]), journal(["c06.restart"]),
-                  exhaust("core", ["msg", "t", "rd", "w"], ["c06.", "core.hyp"], qd=None)],
+                  exhaust("core", ["msg", "t", "rd", "w"], ["c06.", "core.hyp"], qd=None),
+                  sysw(["wrun", "wbl", "launch", "s2w", "w2s", "t", "msg"], quick=False)],
                  ["message-level theorems are about what the server SENDS: instance ids sent for one task never decrease (c06_sends_nondecreasing, "
                   "hypothesis NoIdReuse: no task id submitted twice), every send after an announced start carries a larger id "
                   "(c06_send_after_start), every loss of the worker holding a task increments its instance (c06_lost_worker_increments); an EQUAL "
@@ -123,7 +150,10 @@ PROPS = {
                          "@HqModel.Sys.sys_cancel_final", "@HqModel.Sys.sys_cancel_no_callback", "@HqModel.SysW.sysw_cancel_final",
                          "@HqModel.SysW.sysw_c08_cancel_sent"],
                  [job(["ev", "resp", "tasks", "job", "live"], ["c08."]), core(["msg", "t", "w", "q", "rd", "cb"], ["c08.", "core.hyp"]),
-                  exhaust("job", ["ev", "resp", "tasks", "job", "live"], ["c08."], qd=None), sys_link(quick=False)]),
+                  exhaust("job", ["ev", "resp", "tasks", "job", "live"], ["c08."], qd=None),
+                  # scenario 5 (a task Retracting from the root of a multi-node task, the state family of F27) to depth 5 on every change
+                  exhaust("job", ["ev", "resp", "tasks", "job", "live"], ["c08."], qd=5, td=None, scenario=5), sys_link(quick=False),
+                  sysw(["ev", "resp", "tasks", "job", "live", "msg", "s2w", "w2s", "stop", "wrun", "wbl"], quick=False)]),
     "C09": entry("C09", ["c09_open_close_no_panic", "c09_forget_no_panic", "c09_cancel_no_panic", "@HqModel.Sys.sys_no_job_panic",
                          "@HqModel.Sys.sys_run_no_job_panic", "@HqModel.Sys.sys_started_running", "@HqModel.Sys.sys_outcome_once",
                          "@HqModel.SysW.sysw_fin_proto", "@HqModel.SysW.sysw_fin_proto_head", "@HqModel.SysW.sysw_fin_view",
@@ -132,7 +162,8 @@ PROPS = {
                  [job(["ev", "resp", "ret", "core", "job", "tasks", "live"], ["c09."]),
                   core(["msg", "cb", "flag", "t", "w", "q", "rd"], ["c09."]),
                   exhaust("core", ["msg", "cb", "flag", "t", "w", "q", "rd"], ["c09."]),
-                  exhaust("job", ["ev", "resp", "ret", "core", "job", "tasks", "live"], ["c09."]), sys_link()],
+                  exhaust("job", ["ev", "resp", "ret", "core", "job", "tasks", "live"], ["c09."]), sys_link(),
+                  sysw(None), sysw_exhaust(None)],
                  [SYS_NOTE, SYSW_NOTE, "a panic inside an unmodelled dependency (tokio, HiGHS, bincode) is outside the claim"]),
     "C14": entry("C14", ["c14_decision", "c14_abort_all", "@HqModel.Sys.sys_max_fails", "@HqModel.SysW.sysw_max_fails"],
                  [job(["ret", "ev", "tasks", "job"], ["c14."]), core(["msg", "cb", "t"], ["c14."]), sys_link(quick=False)],
